@@ -399,6 +399,198 @@ fn check_tracer_start(cfg: &TrippyConfig, o: &mut Outcome, replay: &serde_json::
     }
 }
 
+
+// ------------------------------------------------------------------------------------------------
+// the two "map" options: theme colours and key bindings are resolved per item
+
+const THEME_FIELDS: &str = "bg border text tab_text hops_table_header_bg hops_table_header_text hops_table_row_active_text hops_table_row_inactive_text hops_chart_selected hops_chart_unselected hops_chart_axis frequency_chart_bar frequency_chart_text flows_chart_bar_selected flows_chart_bar_unselected flows_chart_text_current flows_chart_text_non_current samples_chart samples_chart_lost help_dialog_bg help_dialog_text settings_dialog_bg settings_tab_text settings_table_header_text settings_table_header_bg settings_table_row_text map_world map_radius map_selected map_info_panel_border map_info_panel_bg map_info_panel_text info_bar_bg info_bar_text";
+const BINDING_FIELDS: &str = "toggle_help toggle_help_alt toggle_settings toggle_settings_tui toggle_settings_trace toggle_settings_dns toggle_settings_geoip toggle_settings_bindings toggle_settings_theme toggle_settings_columns previous_hop next_hop previous_trace next_trace previous_hop_address next_hop_address address_mode_ip address_mode_host address_mode_both toggle_freeze toggle_chart toggle_map toggle_flows expand_privacy contract_privacy expand_hosts contract_hosts expand_hosts_max contract_hosts_min chart_zoom_in chart_zoom_out clear_trace_data clear_dns_cache clear_selection toggle_as_info toggle_hop_details quit quit_preserve_screen";
+
+fn theme_values(c: &TrippyConfig) -> BTreeMap<String, String> {
+    let t = &c.tui_theme;
+    macro_rules! f {
+        ($($n:ident),*) => { vec![$((stringify!($n), format!("{:?}", t.$n))),*] };
+    }
+    let v = f!(
+        bg, border, text, tab_text, hops_table_header_bg, hops_table_header_text, hops_table_row_active_text, hops_table_row_inactive_text, hops_chart_selected, hops_chart_unselected, hops_chart_axis,
+        frequency_chart_bar, frequency_chart_text, flows_chart_bar_selected, flows_chart_bar_unselected, flows_chart_text_current, flows_chart_text_non_current, samples_chart, samples_chart_lost,
+        help_dialog_bg, help_dialog_text, settings_dialog_bg, settings_tab_text, settings_table_header_text, settings_table_header_bg, settings_table_row_text, map_world, map_radius, map_selected,
+        map_info_panel_border, map_info_panel_bg, map_info_panel_text, info_bar_bg, info_bar_text
+    );
+    v.into_iter().map(|(k, x)| (format!("{}-color", k.replace('_', "-")), x)).collect()
+}
+
+fn binding_values(c: &TrippyConfig) -> BTreeMap<String, String> {
+    let t = &c.tui_bindings;
+    macro_rules! f {
+        ($($n:ident),*) => { vec![$((stringify!($n), format!("{}", t.$n))),*] };
+    }
+    let v = f!(
+        toggle_help, toggle_help_alt, toggle_settings, toggle_settings_tui, toggle_settings_trace, toggle_settings_dns, toggle_settings_geoip, toggle_settings_bindings, toggle_settings_theme,
+        toggle_settings_columns, previous_hop, next_hop, previous_trace, next_trace, previous_hop_address, next_hop_address, address_mode_ip, address_mode_host, address_mode_both, toggle_freeze,
+        toggle_chart, toggle_map, toggle_flows, expand_privacy, contract_privacy, expand_hosts, contract_hosts, expand_hosts_max, contract_hosts_min, chart_zoom_in, chart_zoom_out, clear_trace_data,
+        clear_dns_cache, clear_selection, toggle_as_info, toggle_hop_details, quit, quit_preserve_screen
+    );
+    v.into_iter().map(|(k, x)| (k.replace('_', "-"), x)).collect()
+}
+
+/// Every theme item and every key binding in the four states, all at once per case.
+fn map_options_job(seed: u64, j: usize) -> Outcome {
+    let mut o = Outcome::default();
+    let mut r = Prng::new(seed ^ (j as u64).wrapping_mul(0x9E37_79B9_7F4A_7C15) ^ 0x7E3);
+    let replay = json!({"how": format!("vcheck C16 --seed {seed} --only m{j}"), "scenario": format!("m{j}")});
+    let empty = Case { argv: vec!["trip".into(), "example.com".into()], toml: String::new(), states: BTreeMap::new() };
+    let Ok(Ok(base)) = build(&empty) else {
+        o.harness_error = Some("baseline configuration rejected".into());
+        return o;
+    };
+    let (base_theme, base_bind) = (theme_values(&base), binding_values(&base));
+    // documented defaults of the theme (names as rendered by Debug)
+    let doc = documented_defaults();
+    let colours = [("red", "Red"), ("blue", "Blue"), ("cyan", "Cyan"), ("magenta", "Magenta"), ("yellow", "Yellow"), ("green", "Green"), ("white", "White"), ("black", "Black"), ("gray", "Gray"), ("darkgray", "DarkGray"), ("lightgreen", "LightGreen")];
+    for (k, v) in &base_theme {
+        if let Some(d) = doc.get(k) {
+            if let Some((_, dbg)) = colours.iter().find(|(n, _)| n == d) {
+                o.hit("default_is_the_documented_one");
+                if dbg != v {
+                    o.violate("default_is_the_documented_one", k.clone(), format!("{k}: default {v}, documented {d}"), replay.clone());
+                }
+            }
+        }
+    }
+    let keys = "abcdefghijklmnopqrstuvwxyz0123456789./";
+    let theme_items: Vec<String> = THEME_FIELDS.split(' ').map(|f| format!("{}-color", f.replace('_', "-"))).collect();
+    let bind_items: Vec<String> = BINDING_FIELDS.split(' ').map(|f| f.replace('_', "-")).collect();
+    for _ in 0..20 {
+        let (mut cli_t, mut file_t, mut cli_b, mut file_b) = (Vec::new(), Vec::new(), Vec::new(), Vec::new());
+        let mut want_t = base_theme.clone();
+        let mut want_b = base_bind.clone();
+        for it in &theme_items {
+            let a = r.below(9) as usize;
+            let b = (a + 1 + r.below(8) as usize) % 9;
+            match r.below(4) {
+                0 => {}
+                1 => {
+                    file_t.push(format!("{it} = \"{}\"", colours[a].0));
+                    want_t.insert(it.clone(), colours[a].1.to_string());
+                }
+                2 => {
+                    cli_t.push(format!("{it}={}", colours[b].0));
+                    want_t.insert(it.clone(), colours[b].1.to_string());
+                }
+                _ => {
+                    file_t.push(format!("{it} = \"{}\"", colours[a].0));
+                    cli_t.push(format!("{it}={}", colours[b].0));
+                    want_t.insert(it.clone(), colours[b].1.to_string());
+                }
+            }
+        }
+        for (n, it) in bind_items.iter().enumerate() {
+            let c = &keys[n..=n];
+            match r.below(4) {
+                0 => {}
+                1 => {
+                    file_b.push(format!("{it} = \"alt+{c}\""));
+                    want_b.insert(it.clone(), format!("alt+{c}"));
+                }
+                2 => {
+                    cli_b.push(format!("{it}=super+{c}"));
+                    want_b.insert(it.clone(), format!("super+{c}"));
+                }
+                _ => {
+                    file_b.push(format!("{it} = \"alt+{c}\""));
+                    cli_b.push(format!("{it}=super+{c}"));
+                    want_b.insert(it.clone(), format!("super+{c}"));
+                }
+            }
+        }
+        let mut argv: Vec<String> = vec!["trip".into(), "example.com".into()];
+        if !cli_t.is_empty() {
+            argv.extend(["--tui-theme-colors".to_string(), cli_t.join(",")]);
+        }
+        if !cli_b.is_empty() {
+            argv.extend(["--tui-key-bindings".to_string(), cli_b.join(",")]);
+        }
+        let mut toml = String::new();
+        if !file_t.is_empty() {
+            toml.push_str(&format!("[theme-colors]\n{}\n", file_t.join("\n")));
+        }
+        if !file_b.is_empty() {
+            toml.push_str(&format!("[bindings]\n{}\n", file_b.join("\n")));
+        }
+        let case = Case { argv, toml, states: BTreeMap::new() };
+        let cfg = match build(&case) {
+            Ok(Ok(c)) => c,
+            Ok(Err(e)) => {
+                o.violate("rejection_only_with_background", "theme-colors/bindings", format!("a configuration of theme colours and unique key bindings was rejected: {e} ({:?})", case.argv), replay.clone());
+                continue;
+            }
+            Err(e) => {
+                o.harness_error = Some(e);
+                return o;
+            }
+        };
+        for (kind, got, want) in [("tui-theme-colors", theme_values(&cfg), &want_t), ("tui-key-bindings", binding_values(&cfg), &want_b)] {
+            for (k, w) in want {
+                o.hit("effective_value_is_cli_then_file_then_default");
+                let g = got.get(k).cloned().unwrap_or_default();
+                if &g != w {
+                    o.violate("effective_value_is_cli_then_file_then_default", format!("{kind}:{k}"), format!("{kind} item {k}: effective {g:?}, expected {w:?} (argv {:?})", case.argv), replay.clone());
+                }
+            }
+        }
+    }
+    o.nontrivial = Some(format!("map-options#{j}"));
+    o
+}
+
+/// Documented cross-option rules: the unsupported combination must be rejected whichever layer
+/// (file or command line) supplies each of the two options.
+fn rules_job(seed: u64) -> Outcome {
+    let mut o = Outcome::default();
+    let replay = json!({"how": format!("vcheck C16 --seed {seed} --only rules"), "scenario": "rules"});
+    // (name, option a: (section, key, toml value, cli args), option b likewise, extra cli args)
+    type OptSpec = (&'static str, &'static str, &'static str, Vec<&'static str>);
+    let rules: Vec<(&'static str, OptSpec, OptSpec, Vec<&'static str>)> = vec![
+        ("unprivileged excludes paris", ("trippy", "unprivileged", "true", vec!["--unprivileged"]), ("strategy", "multipath-strategy", "\"paris\"", vec!["--multipath-strategy", "paris"]), vec!["--udp"]),
+        ("unprivileged excludes dublin", ("trippy", "unprivileged", "true", vec!["--unprivileged"]), ("strategy", "multipath-strategy", "\"dublin\"", vec!["--multipath-strategy", "dublin"]), vec!["--udp"]),
+        ("paris needs udp (icmp)", ("strategy", "protocol", "\"icmp\"", vec!["--protocol", "icmp"]), ("strategy", "multipath-strategy", "\"paris\"", vec!["--multipath-strategy", "paris"]), vec![]),
+        ("dublin needs udp (tcp)", ("strategy", "protocol", "\"tcp\"", vec!["--protocol", "tcp"]), ("strategy", "multipath-strategy", "\"dublin\"", vec!["--multipath-strategy", "dublin"]), vec![]),
+        ("as lookups need a resolver other than system", ("dns", "dns-lookup-as-info", "true", vec!["--dns-lookup-as-info"]), ("dns", "dns-resolve-method", "\"system\"", vec!["--dns-resolve-method", "system"]), vec![]),
+    ];
+    for (name, a, b, extra) in &rules {
+        for la in 0..2 {
+            for lb in 0..2 {
+                let mut argv: Vec<String> = vec!["trip".into(), "example.com".into()];
+                argv.extend(extra.iter().map(|s| (*s).to_string()));
+                let mut sections: BTreeMap<&str, Vec<String>> = BTreeMap::new();
+                for (layer, opt) in [(la, a), (lb, b)] {
+                    if layer == 0 {
+                        sections.entry(opt.0).or_default().push(format!("{} = {}", opt.1, opt.2));
+                    } else {
+                        argv.extend(opt.3.iter().map(|s| (*s).to_string()));
+                    }
+                }
+                let toml: String = sections.iter().map(|(s, l)| format!("[{s}]\n{}\n", l.join("\n"))).collect();
+                let case = Case { argv, toml, states: BTreeMap::new() };
+                o.hit("unsupported_combination_rejected_up_front");
+                match build(&case) {
+                    Ok(Err(_)) => {}
+                    Ok(Ok(_)) => o.violate(
+                        "unsupported_combination_rejected_up_front",
+                        format!("{name}|{}+{}", ["file", "cli"][la], ["file", "cli"][lb]),
+                        format!("{name}: accepted with {} from the {} and {} from the {} (argv {:?}, file {:?})", a.1, ["file", "command line"][la], b.1, ["file", "command line"][lb], case.argv, case.toml),
+                        replay.clone(),
+                    ),
+                    Err(e) => o.harness_error = Some(e),
+                }
+            }
+        }
+    }
+    o.nontrivial = Some("rules".to_string());
+    o
+}
+
 fn strip(case: &mut Case, op: &Opt) {
     let flag = format!("--{}", op.name);
     if let Some(i) = case.argv.iter().position(|a| *a == flag) {
@@ -526,7 +718,7 @@ fn derived_job(seed: u64, j: usize, tier: Tier) -> Outcome {
 // ------------------------------------------------------------------------------------------------
 // part 2: accepted configurations can run
 
-fn run_builder(b: Builder, v6: bool, o: &mut Outcome, site: &str, replay: &serde_json::Value) {
+fn run_builder(b: Builder, v6: bool, network: u64, o: &mut Outcome, site: &str, replay: &serde_json::Value) {
     let target: IpAddr = if v6 { scen::target_v6().into() } else { scen::TARGET_V4.into() };
     let mk = |i: usize| {
         let mut s = HopSpec::simple(scen::hop_addr(v6, i, 0), 300_000);
@@ -535,13 +727,35 @@ fn run_builder(b: Builder, v6: bool, o: &mut Outcome, site: &str, replay: &serde
     };
     let mut t = HopSpec::simple(target, 500_000);
     t.quote = Quote::Full;
-    let topo = Topology { hops: vec![mk(0), mk(1)], target: t, tcp: TcpMode::Rst };
+    let mut topo = Topology { hops: vec![mk(0), mk(1)], target: t, tcp: TcpMode::Rst };
+    // "against a network": mostly a friendly one, sometimes a hostile one - an error value is
+    // an acceptable outcome there, a panic is not
+    let mut wcfg0 = world_cfg(topo.clone(), 7);
+    match network {
+        0 => wcfg0.faults.bind_in_use_pct = 100, // every local port is in use
+        1 => {
+            // nothing answers
+            for h in &mut topo.hops {
+                h.behaviour = crate::world::Behaviour::Silent;
+            }
+            topo.target.behaviour = crate::world::Behaviour::Silent;
+            topo.tcp = TcpMode::Silent;
+            wcfg0.topo = topo.clone();
+        }
+        2 => wcfg0.faults.send_fails_for_ttl = Some((2, libc::EHOSTUNREACH)),
+        3 => {
+            topo.tcp = TcpMode::Fails(libc::ETIMEDOUT);
+            wcfg0.topo = topo.clone();
+        }
+        _ => {}
+    }
+    o.observe("networks", ["every-port-in-use", "silent", "send-fails-for-one-ttl", "tcp-connect-fails", "friendly"][network.min(4) as usize]);
     let res = guarded(|| -> Result<Option<String>, String> {
         let tracer = match b.build() {
             Ok(t) => t,
             Err(e) => return Ok(Some(format!("{e}"))),
         };
-        let world = World::new(world_cfg(topo.clone(), 7));
+        let world = World::new(wcfg0.clone());
         let run = run_tracer(&world, 0, &tracer, &RunOpts { snapshots: false });
         // query the state the way the front end does
         let s = tracer.snapshot();
@@ -609,7 +823,8 @@ fn builder_alone_job(seed: u64, j: usize, tier: Tier) -> Outcome {
         .max_flows(*r.pick(&[0usize, 1, 64]));
     let site = format!("builder/{protocol}/{strategy}/{}", ["none", "fsrc", "fdst", "fboth"][ports_k]);
     let replay = json!({"how": format!("vcheck C16 --seed {seed} --only b{j}"), "scenario": format!("b{j}"), "builder": format!("{b:?}")});
-    run_builder(b, v6, &mut o, &site, &replay);
+    let network = r.below(10);
+    run_builder(b, v6, network, &mut o, &site, &replay);
     o.observe("builder_categories", format!("{protocol}/{strategy}/{}/{}/{}", ["none", "fsrc", "fdst", "fboth"][ports_k], if unpriv { "unpriv" } else { "priv" }, if v6 { "v6" } else { "v4" }));
     o.nontrivial = Some(format!("{site}|{unpriv}|{v6}|{ext}|{first_ttl}|{max_ttl}|{inflight}|{seq}|{size}"));
     o
@@ -628,7 +843,8 @@ fn cli_then_builder_job(seed: u64, j: usize, tier: Tier) -> Outcome {
         // value): use the configuration's other fields as they are
         let b = builder_for(&cfg, target, 0, 4242).max_rounds(Some(3)).min_round_duration(Duration::from_millis(30)).max_round_duration(Duration::from_millis(30)).source_addr(None).interface(None::<String>);
         let replay = json!({"how": format!("vcheck C16 --seed {seed} --only c{j}"), "scenario": format!("c{j}"), "argv": case.argv, "toml": case.toml});
-        run_builder(b, v6, &mut o, &format!("cli/{:?}/{:?}", cfg.protocol, cfg.multipath_strategy), &replay);
+        let network = r.below(10);
+        run_builder(b, v6, network, &mut o, &format!("cli/{:?}/{:?}", cfg.protocol, cfg.multipath_strategy), &replay);
         o.observe("cli_accepted_shapes", format!("{:?}/{:?}/{:?}/{:?}", cfg.protocol, cfg.multipath_strategy, cfg.privilege_mode, cfg.addr_family));
     }
     o.nontrivial = Some(format!("cli-then-builder:{j}"));
@@ -637,17 +853,18 @@ fn cli_then_builder_job(seed: u64, j: usize, tier: Tier) -> Outcome {
 
 pub fn run(tier: Tier, seed: u64, only: Option<String>) -> i32 {
     let mut rep = Report::new("C16", "exploration", tier, seed);
-    rep.rule = "part 1: configurations are drawn with each of 41 options independently absent / in the file / on the command line / both with different values (real clap parser, real TOML parser, real build_config through a hook), repaired only in the background to respect the documented cross-option rules; every option is forced through all four states over 5 (thorough 500) backgrounds and EVERY option of every accepted configuration is compared with CLI > file > documented default; a rejection is re-tested without the option; derived fields (protocol shortcuts, -4/-6, port direction, max rounds from mode and report cycles) are modelled explicitly; every accepted configuration is also handed to the application's own start_tracer and make_tui_config (hooks that call the real functions) and the tracer / front end configuration they produce must carry every resolved value; part 2: every configuration accepted by the CLI layer goes through the same builder chain as start_tracer (hook) and runs 3 rounds over a simulated 3-hop path; the full categorical product protocol x strategy x port direction x privilege x family x extension mode (288) with boundary numerics (first/max ttl 0,1,254,255; inflight 0,1,255; sequence 0,64511,64512,65535; packet size 0..65535) goes through Builder::build alone: either build() returns an error or the run returns without panicking; distinct by (option | derived shard | builder parameters)".into();
+    rep.rule = "part 1: configurations are drawn with each of 41 options independently absent / in the file / on the command line / both with different values (real clap parser, real TOML parser, real build_config through a hook), repaired only in the background to respect the documented cross-option rules; every option is forced through all four states over 5 (thorough 500) backgrounds and EVERY option of every accepted configuration is compared with CLI > file > documented default; a rejection is re-tested without the option; the two per-item options (34 theme colours, 38 key bindings) are drawn item by item in the same four states and compared item by item; the documented cross-option rules (unprivileged excludes paris / dublin, paris / dublin need udp, AS lookups need a resolver other than system) must reject the combination whichever layer supplies each option; derived fields (protocol shortcuts, -4/-6, port direction, max rounds from mode and report cycles) are modelled explicitly; every accepted configuration is also handed to the application's own start_tracer and make_tui_config (hooks that call the real functions) and the tracer / front end configuration they produce must carry every resolved value; part 2: every configuration accepted by the CLI layer goes through the same builder chain as start_tracer (hook) and runs 3 rounds over a simulated 3-hop path (six in ten friendly, the others: every local port in use, nothing answers, sends failing for one ttl, TCP connection attempts failing); the full categorical product protocol x strategy x port direction x privilege x family x extension mode (288) with boundary numerics (first/max ttl 0,1,254,255; inflight 0,1,255; sequence 0,64511,64512,65535; packet size 0..65535) goes through Builder::build alone: either build() returns an error or the run returns without panicking; distinct by (option | derived shard | builder parameters)".into();
     rep.assumptions = vec![
         "documented defaults are taken from trippy-config-sample.toml and the constants documented in --help".into(),
         "boolean flags cannot be switched off from the command line: 'both' means file=false, command line on".into(),
         "a run that ends with an error value (e.g. invalid packet size reported when the first probe is dispatched) is not a crash".into(),
     ];
-    rep.required_clauses = vec!["effective_value_is_cli_then_file_then_default", "derived_fields", "accepted_configuration_runs_without_panic", "default_is_the_documented_one", "tracer_started_with_the_resolved_values"];
+    rep.required_clauses = vec!["effective_value_is_cli_then_file_then_default", "derived_fields", "accepted_configuration_runs_without_panic", "default_is_the_documented_one", "tracer_started_with_the_resolved_values", "unsupported_combination_rejected_up_front"];
     let n_opts = options().len();
     let n_derived = tier.pick(8, 32);
     let n_builder = 288 * tier.pick(16, 80);
     let n_cli = tier.pick(64, 256);
+    let n_map = tier.pick(16, 400);
     match only {
         Some(s) if s.starts_with('d') => rep.merge(derived_job(seed, s[1..].parse().unwrap_or(0), tier)),
         Some(s) if s.starts_with('b') => {
@@ -658,6 +875,20 @@ pub fn run(tier: Tier, seed: u64, only: Option<String>) -> i32 {
             rep.merge(o);
         }
         Some(s) if s.starts_with('c') => rep.merge(cli_then_builder_job(seed, s[1..].parse().unwrap_or(0), tier)),
+        Some(s) if s == "rules" => {
+            let o = rules_job(seed);
+            for v in o.violations.iter().take(20) {
+                println!("{}: {}", v.signature(), v.detail);
+            }
+            rep.merge(o);
+        }
+        Some(s) if s.starts_with('m') => {
+            let o = map_options_job(seed, s[1..].parse().unwrap_or(0));
+            for v in o.violations.iter().take(5) {
+                println!("{}: {}", v.signature(), v.detail);
+            }
+            rep.merge(o);
+        }
         Some(s) => {
             let o = precedence_job(seed, s.parse().unwrap_or(0), tier);
             for v in o.violations.iter().take(5) {
@@ -665,8 +896,12 @@ pub fn run(tier: Tier, seed: u64, only: Option<String>) -> i32 {
             }
             rep.merge(o);
         }
-        None => rep.run_parallel(n_opts + n_derived + n_builder + n_cli, |i| {
-            if i < n_opts {
+        None => {
+            rep.merge(rules_job(seed));
+            rep.run_parallel(n_opts + n_derived + n_builder + n_cli + n_map, |i| {
+            if i >= n_opts + n_derived + n_builder + n_cli {
+                map_options_job(seed, i - n_opts - n_derived - n_builder - n_cli)
+            } else if i < n_opts {
                 precedence_job(seed, i, tier)
             } else if i < n_opts + n_derived {
                 derived_job(seed, i - n_opts, tier)
@@ -675,7 +910,8 @@ pub fn run(tier: Tier, seed: u64, only: Option<String>) -> i32 {
             } else {
                 cli_then_builder_job(seed, i - n_opts - n_derived - n_builder, tier)
             }
-        }),
+        })
+        }
     }
     rep.finish()
 }
